@@ -40,6 +40,17 @@ ASSUMPTIONS = [
     "at least three distinct masked values (bracket clause)",
     "adaptive / per-object modes are called with both range limits (with None the code raises TypeError in "
     "Python 3; model and code are checked to reject alike)",
+    "the mask is read as a BOOLEAN array: the Coq access-shape theorems (access_crop_first, crop_first_noninterference*) model "
+    "image[mask] as boolean selection. A 0/1 mask of integer dtype makes image[mask] fancy row indexing in all seven methods: known "
+    "finding F24/C11 (stream `imask`, attributed only when the same calls with mask.astype(bool) pass)",
+    "reading of 'every local threshold lies within the range and the band': in per-object mode with a labels matrix the pixels with "
+    "label 0 carry the code's sentinel 1.0 ('never foreground', threshold.py:172-173) and are outside the range / band clauses "
+    "(S3 is stated and checked for labelled pixels; local_in_band excludes `unlabelled` positions); determinism, non-interference "
+    "and the exact correspondence cover every pixel including those",
+    "a call that raises returns no threshold, so no clause about thresholds applies to it; what is still required is that the "
+    "outcome (the same exception type) does not change when the call is repeated or masked-out pixels change: adaptive_window_size=1 "
+    "(RectBivariateSpline ValueError), Kapur on near-saturated 8-bit data (empty arg-min ValueError), None range limits (TypeError) "
+    "are produced by the generator and counted",
 ]
 EXHAUSTIVE = {"quick": False, "thorough": False}
 
@@ -75,6 +86,8 @@ def _image(rng, H, W, kind):
         return np.where(rng.rand(H, W) < 0.3, 0.7 + 0.1 * rng.randn(H, W), 0.2 + 0.05 * rng.randn(H, W)).clip(0, 1)
     if kind == "quant":
         return rng.randint(0, 8, (H, W)) / 8.0
+    if kind == "sat8":                             # near-saturated 8-bit data: Kapur's smoothed histogram collapses
+        return rng.randint(253, 256, (H, W)) / 255.0
     if kind == "const":
         return np.full((H, W), float(rng.choice([0.0, 0.25, 1.0])))
     if kind == "two":
@@ -173,10 +186,14 @@ def _thr_case(rng, method, mod, small=False):
         # sides for which int(nblocks * increment) rounds down (59 = 29 blocks of window 2 ending at 58; 61 = 7 of 8)
         H, W = int(rng.choice([59, 61, 24])), int(rng.choice([59, 61, 16]))
     kind = str(rng.choice(["uni", "bimodal", "quant", "dark", "uni", "bimodal", "quant", "dark", "const", "two"]))
+    if method == "Kapur" and rng.rand() < 0.15:
+        kind = "sat8"
     img = _image(rng, H, W, kind)
     mask = _mask(rng, H, W)
     wins = [w for w in (2, 3, 4, 5, 6, 8, 10) if min(H, W) // w >= 2]
     window = int(rng.choice(wins))
+    if mod == 1 and method != "MoG" and rng.rand() < 0.08:
+        window = 1                                 # every method raises in RectBivariateSpline (knots outside the bbox)
     if max(H, W) > 48:
         window = int(rng.choice([2, 8]))
     u = rng.rand()
@@ -274,8 +291,6 @@ def _mal_case(rng, what):
     if what == "window_too_large":
         c["mod"] = 1
         c["window"] = int(min(H, W) // 2 + 1 + rng.randint(0, 6))
-    elif what == "uint8_mask":
-        c["mask_dtype"] = "uint8"
     elif what == "int_image":
         c["dtype"] = str(rng.choice(["uint8", "uint16", "int32"]))
     return c
@@ -364,7 +379,32 @@ def generate(ctx):
         c = dict(thr[i])
         c["again_of"] = i
         cases.append(c)
-    for what in ("window_too_large", "uint8_mask", "int_image"):
+    # the two loud rejections reported by the outside tester are produced in every run (the outcome must be the same raise on
+    # repetition and when masked-out pixels change): adaptive_window_size = 1, Kapur on near-saturated 8-bit data
+    c = _thr_case(rng, "Otsu", 1, small=True)
+    c.update(window=1, lo=0.0, hi=1.0, kw={})
+    cases.append(c)
+    c = _thr_case(rng, "Kapur", 0, small=True)
+    c.update(kind="sat8", img=[[254 / 255.0, 1.0, 1.0, 253 / 255.0, 0.5]], mask=[[1, 1, 1, 1, 0]],
+             labels=None, lo=0.0, hi=1.0, kw={}, dtype="float64", layout="C")       # the tester's input + one masked-out pixel
+    cases.append(c)
+    # integer 0/1 masks (known finding F24/C11): 7 methods x 3 modifiers, three integer dtypes; truthy values 2 / 255 as a class
+    for r in range(ctx.n(1, 8)):
+        for method in METHODS:
+            for mod in (0, 1, 2):
+                if method == "MoG" and r % 2:
+                    continue
+                c = _thr_case(rng, method, mod, small=True)
+                H, W = int(rng.choice([6, 8, 12])), int(rng.choice([7, 8, 12]))
+                c.update({"fn": "imask", "img": _image(rng, H, W, "uni").tolist(),
+                          "mask": (rng.rand(H, W) < 0.6).astype(int).tolist(),
+                          "labels": _labels(rng, H, W).tolist() if mod == 2 else None, "lo": 0.0, "hi": 1.0, "kw": {},
+                          "window": int(rng.choice([w for w in (2, 3) if min(H, W) // w >= 2])), "dtype": "float64",
+                          "ldtype": "int64", "layout": "C", "kind": "uni",
+                          "mask_dtype": str(rng.choice(["uint8", "int32", "int64"])),
+                          "mask_true": int(rng.choice([1, 1, 1, 1, 2, 255]))})
+                cases.append(c)
+    for what in ("window_too_large", "int_image"):
         for _ in range(ctx.n(6, 40)):
             cases.append(_mal_case(rng, what))
     for _ in range(ctx.n(200, 3000)):
@@ -397,6 +437,8 @@ def generate(ctx):
                 ctx.count("thr:history_replay")
         elif c["fn"] == "mal":
             ctx.count("mal:%s" % c["what"])
+        elif c["fn"] == "imask":
+            ctx.count("imask:%s:true=%d" % (c["mask_dtype"], c["mask_true"]))
         else:
             ctx.count(c["fn"])
     return cases
@@ -678,6 +720,33 @@ def _impl_thr(case):
     return out
 
 
+def _impl_imask(case):
+    """the same calls with the mask as a 0/1 (or 0/k) INTEGER array and, as control, as a boolean array: repeated call,
+    masked-out pixels scrambled, and integer-mask result against boolean-mask result"""
+    import centrosome.threshold as T
+    dt, tv = case["mask_dtype"], case["mask_true"]
+    base = dict(case)
+    base["mask_dtype"] = None
+    img, mask, labels, kw = _setup(base)
+    imask = (mask.astype(dt) * np.array(tv).astype(dt))
+    method, mod = case["method"], MODS[case["mod"]]
+    prng = np.random.RandomState(case["pseed"])
+    im2 = img.copy()
+    im2[~mask] = prng.rand(int((~mask).sum()))
+
+    def call(im, m):
+        k = dict(mask=m.copy(), threshold_range_min=0.0, threshold_range_max=1.0, adaptive_window_size=case["window"])
+        if labels is not None:
+            k["labels"] = labels.copy()
+        return T.get_threshold(method, mod, im.copy(), **k)
+    ob, ob2, obp = (_outcome(lambda: call(img, mask)), _outcome(lambda: call(img, mask)), _outcome(lambda: call(im2, mask)))
+    oi, oi2, oip = (_outcome(lambda: call(img, imask)), _outcome(lambda: call(img, imask)), _outcome(lambda: call(im2, imask)))
+    desc = lambda o: (float(o[2]) if o[0] == "ok" else "raises " + o[1])
+    return {"ctl_ok": _same_outcome(ob, ob2) and _same_outcome(ob, obp),
+            "int_det": _same_outcome(oi, oi2), "int_ni": _same_outcome(oi, oip), "int_eq_bool": _same_outcome(oi, ob),
+            "n_out": int((~mask).sum()), "bool": desc(ob), "int": desc(oi), "int_scrambled": desc(oip)}
+
+
 def _impl_mal(case):
     import centrosome.threshold as T
     img, mask, labels, kw = _setup(case)
@@ -755,6 +824,8 @@ def impl(case):
                 "p32": float((np.array([a32]) * np.array([b32]))[0])}
     if case["fn"] == "mal":
         return _impl_mal(case)
+    if case["fn"] == "imask":
+        return _impl_imask(case)
     if case["fn"] == "big":
         import centrosome.threshold as T
         prng = np.random.RandomState(case["seed"])
@@ -1026,7 +1097,7 @@ def compare(case, out, m):
             return "binary32: float32(%r) = %r, product with float32(%r) = %r; model %r, %r" % (
                 case["a"], out["a32"], case["b"], out["p32"], float(_fr(m[1][0])), float(_fr(m[1][1])))
         return None
-    if case["fn"] in ("mal", "big"):
+    if case["fn"] in ("mal", "big", "imask"):
         return None
     if case["fn"] in ("rob", "mct"):
         return _cmp_body(case, out, m)
@@ -1130,6 +1201,18 @@ def check(ctx, cases, outs):
                 res[k] = "S1: the same data reached through a mask give a different %s threshold (%r vs %r)" % (
                     c["fn"], o["t"], o["t_masked"])
             continue
+        if c["fn"] == "imask":
+            if _bad(o):
+                res[k] = "get_threshold crashed/hung with an integer mask: %s" % (str(o)[:300],)
+            elif not o["ctl_ok"]:
+                res[k] = "S1/S4 with the BOOLEAN mask: repeated call or scrambled masked-out pixels changed the outcome"
+            elif not (o["int_det"] and o["int_ni"] and o["int_eq_bool"]):
+                res[k] = ("S1 with a 0/%d mask of dtype %s: %s%s%s (bool mask: %s; integer mask: %s; masked-out pixels scrambled: %s)"
+                          % (c["mask_true"], c["mask_dtype"],
+                             "" if o["int_eq_bool"] else "result differs from the boolean mask's; ",
+                             "" if o["int_ni"] else "masked-out pixels change the outcome; ",
+                             "" if o["int_det"] else "repeated call differs; ", o["bool"], o["int"], o["int_scrambled"]))
+            continue
         if c["fn"] == "mal":
             if _bad(o):
                 res[k] = "get_threshold crashed/hung on a malformed input: %s" % (str(o)[:300],)
@@ -1167,6 +1250,12 @@ def check(ctx, cases, outs):
             if "raised" in o:
                 plain = (not c["kw"] and o["distinct"] >= 3 and min(len(c["img"]), len(c["img"][0])) >= 12
                          and c["dtype"] == "float64")
+                if c["mod"] == 1 and c["window"] == 1:
+                    ctx.count("observation:adaptive_window_1_raises_%s" % o["raised"])
+                    plain = False
+                if c["kind"] == "sat8":
+                    ctx.count("observation:kapur_saturated_8bit_raises_%s" % o["raised"])
+                    plain = False
                 if plain:
                     res[k] = "get_threshold raised %s on a valid input (default keyword arguments)" % o["raised"]
                 continue
@@ -1318,6 +1407,8 @@ def nontrivial(case, out):
         return (not _rejected(case)) and "raised" not in out and out["distinct"] >= 3 and out["n_out"] > 0
     if case["fn"] in ("fmul", "mal"):
         return False
+    if case["fn"] == "imask":
+        return out["n_out"] > 0
     if case["fn"] == "big":
         return True
     if case["fn"] in ("rob", "mct", "rc"):
@@ -1371,8 +1462,25 @@ def search_cases(ctx, rnd):
     return cases
 
 
+def attribute(ctx, case, out, clause):
+    """F24/C11: a failure of the integer-mask stream is the known finding iff the mask has a non-bool integer dtype AND the
+    same calls with mask.astype(bool) pass; everything else is a violation"""
+    if (isinstance(case, dict) and case.get("fn") == "imask" and case.get("mask_dtype") in ("uint8", "int32", "int64")
+            and isinstance(out, dict) and out.get("ctl_ok") is True
+            and not (out.get("int_det") and out.get("int_ni") and out.get("int_eq_bool"))):
+        return "F24/C11"
+    return None
+
+
+def reproduce_finding(ctx, finding):
+    case = finding["witness"]
+    o = ctx.run_impl([case])[0]
+    v = check(ctx, [case], [o])[0]
+    return bool(v) and attribute(ctx, case, o, v) == finding["id"]
+
+
 def shrink_candidates(case):
-    if case["fn"] in ("fmul", "mal", "big"):
+    if case["fn"] in ("fmul", "mal", "big", "imask"):
         return
     if case["fn"] in ("rob", "mct", "rc"):
         v = case["ints"]
@@ -1459,7 +1567,11 @@ MANIFEST = {
         "Background beyond the regenerated formulas (relational clauses only); log/exp around the Ridler-Calvard loop and in Otsu's "
         "wrapper; floating-point Otsu / MCT / RobustBackground / Ridler-Calvard are compared with their exact models at stated "
         "tolerances on dyadic data, ill-conditioned arg-min/arg-max cases excluded and counted. otsu3/entropy/entropy3 values and "
-        "otsu with non-default min/max/bins have invariance clauses only."),
+        "otsu with non-default min/max/bins have invariance clauses only. Known finding F24/C11 (integer 0/1 masks are used as fancy "
+        "indices by all seven methods) is reported as KNOWN-FINDING and attributed only when the mask dtype is a non-bool integer and "
+        "the same calls with mask.astype(bool) pass; the access-shape theorems read the mask as boolean. Per-object pixels with label 0 "
+        "carry the sentinel 1.0 and are outside the range / band clauses (reading of the property, see ASSUMPTIONS). Calls that raise "
+        "(adaptive_window_size=1, Kapur on near-saturated 8-bit data, None range limits) are required only to raise identically."),
     "technique": "Coq proof over regenerated programs/formulas + exact differential correspondence + verified checkers on outputs",
     "design_ref": "DESIGN.md section 7, C11",
 }
